@@ -14,7 +14,7 @@ PROP = "C20"
 
 TIERS = {
     # runs: number of seeds; budget_s: wall guard (no new run is issued after it)
-    "quick": {"runs": 3000, "budget_s": 120},
+    "quick": {"runs": 4000, "budget_s": 150},
     "thorough": {"runs": 120000, "budget_s": 1500},
 }
 
@@ -273,6 +273,7 @@ def main(tier: str, replay_path: Optional[str] = None, runs: Optional[int] = Non
     from dst.c20 import reach
 
     reach.compute()  # before the workers are forked: plans are site-directed
+    reach.clusters()
     cfg = TIERS[tier]
     n = runs if runs is not None else common.env_int("VERIF_RUNS", cfg["runs"])
     budget = budget_s if budget_s is not None else common.env_float("VERIF_BUDGET_S", cfg["budget_s"])
